@@ -88,6 +88,8 @@ def check(ctx):
     ok = first_import is not None and last_env is not None and last_env < first_import and "NUMBA_THREADING_LAYER" in keys
     (ctx.holds if ok else ctx.violated)("R4-env-defaults", "speckit/__init__.py", f"thread-layer defaults {keys} set before the first package import" if ok else
                                         "environment defaults are not all set before numba-using modules are imported (they are read at import time)", f"speckit/__init__.py:{last_env or 0}")
+    from ..effects import check_no_shared_module_state
+    check_no_shared_module_state(ctx, rule="R9-instance-state-not-shared")
     ctx.trust("numba prange semantics (iterations may run concurrently; scalar '+=' is a reduction with unspecified order)", "E7 aliasing rows")
     ctx.assume("BLAS-internal threading of the NumPy fallback is not analysed")
     return ("Every prange loop (6) and CUDA kernel (6) is checked: array stores only into the iteration's own slot, no loop-carried scalar or reduction "
